@@ -278,6 +278,13 @@ def c13(run, replay=None):
     for sp in SPECIAL_SCRIPTS:
         items.append(("special-script", dict(text=sp, argv=[])))
         items.append(("special-script", dict(text=sp, argv=["--", "x"])))
+    # every kind of invalid task definition (non-string keys, near-miss keywords, non-mappings ...) after a valid task,
+    # and alone: rejected with an error, never a panic
+    from . import engine as EN
+    for kind, txt in sorted(EN.INVALID_TEXT.items()):
+        items.append(("invalid-task", dict(text="#!/usr/bin/env rash\n- debug:\n    msg: first\n" + txt, argv=[])))
+        items.append(("invalid-task", dict(text="#!/usr/bin/env rash\n" + txt, argv=[])))
+        items.append(("invalid-task", dict(text="#!/usr/bin/env rash\n- include: ROOT/s.rh\n" + txt, argv=[])))
     bad = b"\xff\xfe".decode("utf-8", "surrogateescape")
     # values AND names that are not UTF-8, an empty value, a huge value, a name of one odd character
     for env in [{"VP_BAD": bad}, {"VP_EMPTY": ""}, {"VP_LONG": "x" * 100000}, {"RASH_LOG_LEVEL": "\xff".encode("latin1").decode("utf-8", "surrogateescape")},
@@ -407,6 +414,14 @@ def c13(run, replay=None):
                 run.known("K15-long-loop-overflows-stack", "")
             else:
                 run.violation("a script of %d tasks did not complete: %s rc=%r in %.1fs" % (n, o["kind"], o["rc"], o["secs"]), dict(tasks=n, observed=o))
+    # K50: a file that includes ITSELF twice with ignore_errors: the depth limit (32) ends every branch, but there are 2^32 of them
+    s = "#!/usr/bin/env rash\n- include: \"{{ rash.path }}\"\n  ignore_errors: true\n- include: \"{{ rash.path }}\"\n  ignore_errors: true\n"
+    o = run_script(root, s, timeout=8)
+    ramps["self_include_twice_ignored"] = (o["kind"], o["secs"])
+    if o["kind"] == "timeout":
+        run.known("K50-exponential-include-tree", "")
+    elif o["kind"] != "exit":
+        run.violation("a script including itself twice with ignore_errors: %s rc=%r" % (o["kind"], o["rc"]), dict(script=s, observed=o))
     for n in (4, 6, 8, 10, 12):
         names = ["c" + string.ascii_lowercase[i] for i in range(n)]
         f = "#!/usr/bin/env rash\n#\n# Usage: prog %s\n#\n" % " ".join("[%s]" % x for x in names)
